@@ -4,9 +4,13 @@ Two halves:
   (A) the panic search (harness/cmd/c01): every input stream runs in child processes through all
       script-facing entry points; a panic escaping the library, a killed child, a timeout or a
       poisoned process is a property failure (known finding when a narrow classifier matches).
-  (B) the theorems about the generator's argument handling (Properties/C01.v) and their tie:
-      the implementation's compile outcome {ok, err, crash} of every generated case is compared with
-      the extracted model on the shape of the real parse tree.
+  (B) the theorems about the generator's argument handling, the infix (Pratt) front end, the by-name call
+      check and the destructuring instructions (Properties/C01.v) and their tie: the implementation's
+      compile outcome {ok, err, crash} of every generated case is compared with the extracted model on the
+      shape of the real parse tree; the outcome of the real InfixExpandArray (ok:<statements>, err, crash) on
+      the token array of every infix block with the extracted Pratt model (operator table regenerated from
+      pratt.go by translator/cmd/infix on every run); typed calls / multiple assignments with call_check /
+      assign_arrays / bindlist.
 """
 import json
 import os
